@@ -259,15 +259,12 @@ func c055(c *an.Ctx, p *an.Prog, rule string) {
 			an.EnumPaths(enc, nil, ci, func(s *an.PathState) {
 				n++
 				parts := s.CallArgs(ci)[1]
-				var v *an.Term
-				for _, e := range s.Events {
-					if e.Kind == "store" && e.Args[0].Op == "indexaddr" && e.Args[0].Args[0].K == parts.K {
-						v = e.Args[1]
-					}
-				}
-				if v == nil {
+				els, okEls := sliceElems(s, parts)
+				if !okEls || len(els) != 1 || els[0] == nil {
+					bad = append(bad, "the reply is not a single locally built part: "+parts.K)
 					return
 				}
+				v := els[0]
 				// leftmost constant of the concatenation
 				t := v
 				for t.Op == "binop" && t.Aux == "+" {
@@ -319,7 +316,7 @@ func c055(c *an.Ctx, p *an.Prog, rule string) {
 			}
 			word := ""
 			for _, a := range s.Atoms {
-				if a.Op == "==" && a.A.Op == "slice" && a.A.Args[1] != nil && a.A.Args[1].IsConst("0") && a.A.Args[2] != nil && a.A.Args[2].IsConst("2") {
+				if a.Op == "==" && a.B != nil && lowZero(a.A) && a.A.Args[2] != nil && a.A.Args[2].IsConst("2") {
 					word, _ = a.B.ConstString()
 				}
 			}
@@ -472,6 +469,49 @@ func c131enc(c *an.Ctx, p *an.Prog) {
 				wr = e
 			}
 		}
+		if put != nil && wr != nil && cp == nil {
+			// header buffer + append: data := make([]byte, 2, …); PutUint16(data, len(part)); Write(append(data, part...))
+			data = put.Args[1]
+			ap := wr.Args[1]
+			okB := data.Op == "make" && data.Aux == "slice" && data.Args[0].IsConst("2") && ap.Op == "call" && ap.Aux == "builtin append" && len(ap.Args) == 2 && ap.Args[0].K == data.K
+			if !okB {
+				bad = append(bad, "an iteration does not perform PutUint16 + copy + Write")
+				return
+			}
+			part = ap.Args[1].StripConv()
+			l := put.Args[2]
+			for l.Op == "numconv" {
+				l = l.Args[0]
+			}
+			if ll, _ := l.CallOf(); ll == nil || ll.Aux != "builtin len" || ll.Args[0].K != part.K {
+				bad = append(bad, "the length prefix is not len() of the part being written")
+			}
+			if !strings.Contains(put.Args[0].K, "BigEndian") {
+				bad = append(bad, "length prefix is not big-endian")
+			}
+			// nothing else touches the header between PutUint16 and the append
+			if wr.Args[0].K != s.T(fn.Params[0]).K {
+				bad = append(bad, "the frame is not written to the writer")
+			}
+			if !extractNil(s, wr.Res, 1) {
+				bad = append(bad, "write error not checked")
+			}
+			ok16 := false
+			for _, a := range s.Atoms {
+				if a.A.IsCallTo("builtin len") && a.B != nil && a.B.IsConst("65535") && (a.Op == "<=") {
+					if lc, _ := a.A.CallOf(); lc.Args[0].K == part.K {
+						ok16 = true
+					}
+				}
+			}
+			if !ok16 {
+				bad = append(bad, "parts longer than 65535 bytes are not refused (the 16-bit length would wrap)")
+			}
+			if !(part.Op == "load" && part.Args[0].Op == "indexaddr" && part.Args[0].Args[0].K == s.T(fn.Params[1]).K) {
+				bad = append(bad, "part is not an element of the parts parameter")
+			}
+			return
+		}
 		if put == nil || cp == nil || wr == nil {
 			bad = append(bad, "an iteration does not perform PutUint16 + copy + Write")
 			return
@@ -483,11 +523,14 @@ func c131enc(c *an.Ctx, p *an.Prog) {
 		}
 		// buffer size = 2 + len(part)
 		sz := data.Args[0]
-		if !(sz.Op == "binop" && sz.Aux == "+" && sz.Args[0].IsConst("2") && sz.Args[1].IsCallTo("builtin len")) {
+		if sz.Op == "binop" && sz.Aux == "+" && sz.Args[0].IsConst("2") {
+			sz = &an.Term{Op: "binop", Aux: "+", Args: []*an.Term{sz.Args[1], sz.Args[0]}} // 2+x is x+2
+		}
+		if !(sz.Op == "binop" && sz.Aux == "+" && sz.Args[1].IsConst("2") && sz.Args[0].IsCallTo("builtin len")) {
 			bad = append(bad, "buffer size is "+sz.K+", not 2+len(part)")
 			return
 		}
-		lc, _ := sz.Args[1].CallOf()
+		lc, _ := sz.Args[0].CallOf()
 		part = lc.Args[0]
 		// PutUint16(data, uint16(len(part)))
 		l := put.Args[2]
@@ -580,7 +623,7 @@ func c131split(c *an.Ctx, p *an.Prog) {
 				if ev.Kind == "call" && ev.Callee == "(encoding/binary.bigEndian).Uint16" {
 					u16 = ev.Res
 					sl := ev.Args[1]
-					if !(sl.Op == "slice" && sl.Args[0].K == data && sl.Args[1] != nil && sl.Args[1].IsConst("0") && sl.Args[2] != nil && sl.Args[2].IsConst("2")) {
+					if !(lowZero(sl) && sl.Args[0].K == data && sl.Args[2] != nil && sl.Args[2].IsConst("2")) {
 						bad = append(bad, "length is not read from data[0:2]")
 					}
 				}
@@ -601,7 +644,7 @@ func c131split(c *an.Ctx, p *an.Prog) {
 				bad = append(bad, "a token is returned without len(data) >= 2")
 			}
 			if has(func(a an.Atom) bool { return a.A.K == strlen && a.Op == "==" && a.B.IsConst("0") }) {
-				if !adv.IsConst("2") || !(tok.Op == "slice" && tok.Args[0].K == data && tok.Args[2] != nil && tok.Args[2].IsConst("2")) {
+				if !adv.IsConst("2") || !(lowZero(tok) && tok.Args[0].K == data && tok.Args[2] != nil && tok.Args[2].IsConst("2")) {
 					bad = append(bad, "empty part is not returned as (2, data[0:2])")
 				}
 				return
@@ -610,7 +653,7 @@ func c131split(c *an.Ctx, p *an.Prog) {
 			if adv.K != wantAdv {
 				bad = append(bad, "advance is "+adv.K+", expected strlen+2")
 			}
-			if !(tok.Op == "slice" && tok.Args[0].K == data && tok.Args[1] != nil && tok.Args[1].IsConst("0") && tok.Args[2] != nil && tok.Args[2].K == wantAdv) {
+			if !(lowZero(tok) && tok.Args[0].K == data && tok.Args[2] != nil && tok.Args[2].K == wantAdv) {
 				bad = append(bad, "token is "+tok.K+", expected data[0:strlen+2]")
 			}
 			// enough data: len(data[2:]) >= strlen
@@ -621,12 +664,19 @@ func c131split(c *an.Ctx, p *an.Prog) {
 				lc, _ := a.A.CallOf()
 				sl := lc.Args[0]
 				return sl.Op == "slice" && sl.Args[0].K == data && sl.Args[1] != nil && sl.Args[1].IsConst("2")
+			}) && !has(func(a an.Atom) bool {
+				// the same bound on the whole buffer: len(data) >= strlen+2
+				if !a.A.IsCallTo("builtin len") || a.B == nil || a.B.K != wantAdv || a.Op != ">=" {
+					return false
+				}
+				lc, _ := a.A.CallOf()
+				return lc.Args[0].K == data
 			}) {
 				bad = append(bad, "token returned without len(data[2:]) >= strlen")
 			}
 		}
 	})
-	c.Check(len(bad) == 0 && nTok >= 2 && nMore >= 2 && nErr >= 3, "C13.1", fnKey(fn)+"|split", p.Pos(fn.Pos()), fmt.Sprintf("%d token returns (advance==len(token)==strlen+2, strlen<=256, enough data), %d need-more-data returns (only when !atEOF or nothing left), %d error returns", nTok, nMore, nErr), strings.Join(uniqS(bad), "; "))
+	c.Check(len(bad) == 0 && nTok >= 1 && nMore >= 2 && nErr >= 3, "C13.1", fnKey(fn)+"|split", p.Pos(fn.Pos()), fmt.Sprintf("%d token returns (advance==len(token)==strlen+2, strlen<=256, enough data), %d need-more-data returns (only when !atEOF or nothing left), %d error returns", nTok, nMore, nErr), strings.Join(uniqS(bad), "; "))
 }
 
 func c131dec(c *an.Ctx, p *an.Prog) {
